@@ -130,12 +130,45 @@ func C13(c *Ctx) {
 		}
 		return nil, false
 	}
+	// the parse closure: ParsePatterns and the unexported helpers of core that only it (transitively) calls
+	coreFns := c.P.FuncsIn("core")
+	inPC := map[*ssa.Function]bool{parse: true}
+	for changed := true; changed; {
+		changed = false
+		for _, g := range pkgClosure(parse) {
+			if inPC[g] || prog.PkgOf(g) != "core" || g.Parent() != nil || (g.Object() != nil && g.Object().Exported()) {
+				continue
+			}
+			sites := callSitesOf(g, coreFns)
+			all := len(sites) > 0
+			for _, st := range sites {
+				top := st.Parent()
+				for top.Parent() != nil {
+					top = top.Parent()
+				}
+				if !inPC[top] {
+					all = false
+				}
+			}
+			if all {
+				inPC[g] = true
+				changed = true
+			}
+		}
+	}
+	var pcFns []*ssa.Function
+	for f := range inPC {
+		pcFns = append(pcFns, f)
+	}
+	sort.Slice(pcFns, func(i, j int) bool {
+		return pcFns[i] == parse || (pcFns[j] != parse && fname(pcFns[i]) < fname(pcFns[j]))
+	})
 	var parserCalls []*ssa.Call
-	for _, f := range c.P.FuncsIn("core") {
+	for _, f := range coreFns {
 		ssau.Instrs(f, func(in ssa.Instruction) {
 			if cl, ok := isParserCall(in); ok {
 				parserCalls = append(parserCalls, cl)
-				if f != parse {
+				if !inPC[f] {
 					c.R.Violate("C13-R1", "parser applied outside ParsePatterns in "+fname(f), c.pos(in), "the pattern parser is applied again in "+fname(f)+" (patterns would be parsed twice)")
 				}
 			}
@@ -143,11 +176,41 @@ func C13(c *Ctx) {
 	}
 	inParse := 0
 	for _, pc := range parserCalls {
-		if pc.Parent() == parse {
+		if inPC[pc.Parent()] {
 			inParse++
 		}
 	}
 	c.R.Check(inParse == 1, "C13-R1", "ParsePatterns: one parser application", c.P.Pos(parse.Pos()), "exactly one call site", fmt.Sprintf("%d parser call sites in ParsePatterns", inParse))
+	// propagatedUp: a non-nil errv makes ParsePatterns return a non-nil error (through the helpers it is in)
+	var propagatedUp func(f *ssa.Function, errv ssa.Value, depth int) bool
+	propagatedUp = func(f *ssa.Function, errv ssa.Value, depth int) bool {
+		if !errPropagated(f, errv) {
+			return false
+		}
+		if f == parse || depth > 3 {
+			return f == parse
+		}
+		sites := callSitesOf(f, pcFns)
+		if len(sites) == 0 {
+			return false
+		}
+		for _, site := range sites {
+			cl, isCall := site.(*ssa.Call)
+			if !isCall {
+				return false
+			}
+			var ev ssa.Value
+			if tup, isTup := cl.Type().(*types.Tuple); isTup {
+				ev = callResults(cl)[tup.Len()-1]
+			} else {
+				ev = cl
+			}
+			if ev == nil || !propagatedUp(site.Parent(), ev, depth+1) {
+				return false
+			}
+		}
+		return true
+	}
 	// Compile calls ParsePatterns exactly once, outside any loop
 	var ppCalls []*ssa.Call
 	ssau.Instrs(compile, func(in ssa.Instruction) {
@@ -161,10 +224,26 @@ func C13(c *Ctx) {
 		c.R.Check(errPropagated(compile, ppCalls[0]), "C13-R1", "Compile: ParsePatterns error propagated", c.pos(ppCalls[0]), "non-nil error returned", "a pattern parse error is dropped")
 	}
 	// stored patterns are canonicalised parser results
-	for i, st := range storesTo(parse, "Branch", "Pattern") {
+	var patStores []*ssa.Store
+	for _, f := range pcFns {
+		patStores = append(patStores, storesTo(f, "Branch", "Pattern")...)
+	}
+	for i, st := range patStores {
 		ok := true
 		var why string
-		for _, d := range phiDefs(st.Val, nil, map[ssa.Value]bool{}) {
+		// a helper's `return nil, err` never reaches the store when the helper's error is propagated
+		nilOK := false
+		if ex0, isEx := st.Val.(*ssa.Extract); isEx {
+			if hc, isC := ex0.Tuple.(*ssa.Call); isC && hc.Common().StaticCallee() != nil && inPC[hc.Common().StaticCallee()] {
+				if tup, isTup := hc.Type().(*types.Tuple); isTup {
+					nilOK = propagatedUp(st.Parent(), callResults(hc)[tup.Len()-1], 0)
+				}
+			}
+		}
+		for _, d := range deepDefs(st.Val, pcFns) {
+			if nilOK && ssau.IsNilConst(d) {
+				continue
+			}
 			ex, isEx := d.(*ssa.Extract)
 			if !isEx || ex.Index != 0 {
 				ok, why = false, "stored pattern may be "+d.String()
@@ -177,7 +256,7 @@ func C13(c *Ctx) {
 			}
 			// argument derives from the parser call
 			fromParser := false
-			for _, a := range phiDefs(cl.Common().Args[0], nil, map[ssa.Value]bool{}) {
+			for _, a := range deepDefs(cl.Common().Args[0], pcFns) {
 				if ex2, is := a.(*ssa.Extract); is && ex2.Index == 0 {
 					if pc, is := ex2.Tuple.(*ssa.Call); is {
 						if _, isP := isParserCall(pc); isP {
@@ -189,18 +268,18 @@ func C13(c *Ctx) {
 			if !fromParser {
 				ok, why = false, "Canonicalize is not applied to the parser's result"
 			}
-			if !errPropagated(parse, callResults(cl)[1]) {
+			if !propagatedUp(cl.Parent(), callResults(cl)[1], 0) {
 				ok, why = false, "Canonicalize error dropped"
 			}
 		}
 		c.R.Check(ok, "C13-R1", fmt.Sprintf("ParsePatterns: stored pattern #%d is canonicalised parser output", i+1), c.pos(st), "Branch.Pattern = Canonicalize(parser(...))", why)
 	}
-	if len(storesTo(parse, "Branch", "Pattern")) == 0 {
+	if len(patStores) == 0 {
 		c.R.Violate("C13-R1", "ParsePatterns: stores parsed patterns", c.P.Pos(parse.Pos()), "ParsePatterns never stores into Branch.Pattern")
 	}
 	for _, pc := range parserCalls {
-		if pc.Parent() == parse {
-			c.R.Check(errPropagated(parse, callResults(pc)[1]), "C13-R1", "ParsePatterns: parser error propagated", c.pos(pc), "non-nil error returned", "a pattern syntax error is dropped")
+		if inPC[pc.Parent()] {
+			c.R.Check(propagatedUp(pc.Parent(), callResults(pc)[1], 0), "C13-R1", "ParsePatterns: parser error propagated", c.pos(pc), "non-nil error returned", "a pattern syntax error is dropped")
 		}
 	}
 	// remembered: a store of a pass-through syntax constant to Spec.PatternSyntax that every nil return after the parse loop passes
@@ -214,9 +293,15 @@ func C13(c *Ctx) {
 	if okMark && inParse == 1 {
 		var pcBlock *ssa.BasicBlock
 		for _, pc := range parserCalls {
-			if pc.Parent() == parse {
-				pcBlock = pc.Block()
+			if inPC[pc.Parent()] {
+				if site := siteInFn(parse, pc); site != nil {
+					pcBlock = site.Block()
+				}
 			}
+		}
+		if pcBlock == nil {
+			c.R.Break("C13-R1: cannot relate the parser call to ParsePatterns")
+			return
 		}
 		// every nil-error return reachable from the parser call must be dominated by a mark
 		for _, b := range parse.Blocks {
@@ -433,33 +518,63 @@ func C13(c *Ctx) {
 	// unknown branching type
 	okType := false
 	if typeLoad != nil {
-		// all comparisons of the loaded type; the block reached when all fail must return an error
+		// explore Compile from the point where the type is read under the assumption that it equals none of the
+		// constants it is compared with: every way on must end in an error return before the next node is visited
 		tv := typeLoad.(ssa.Value)
-		var cmps []*ssa.BinOp
-		for _, r := range ssau.Referrers(tv) {
-			if bo, ok := r.(*ssa.BinOp); ok && bo.Op == token.EQL {
-				cmps = append(cmps, bo)
-			}
+		tb := typeLoad.(ssa.Instruction).Block()
+		var hdr *ssa.BasicBlock
+		if L := flow.InnermostLoop(flow.Loops(compile), tb); L != nil {
+			hdr = L.Header
 		}
-		for _, bo := range cmps {
-			for _, r := range ssau.Referrers(bo) {
-				if iff, ok := r.(*ssa.If); ok {
-					cur := iff.Block().Succs[1]
-					for i := 0; i < 6; i++ {
-						if returnsErr(cur, nil) {
-							okType = true
-						}
-						if len(cur.Succs) == 1 {
-							cur = cur.Succs[0]
-						} else {
-							break
+		ncmp := 0
+		okType = true
+		seenB := map[*ssa.BasicBlock]bool{tb: true}
+		stack := []*ssa.BasicBlock{tb}
+		for len(stack) > 0 {
+			x := stack[len(stack)-1]
+			stack = stack[:len(stack)-1]
+			last := x.Instrs[len(x.Instrs)-1]
+			if _, isRet := last.(*ssa.Return); isRet {
+				if !returnsErr(x, nil) {
+					okType = false
+				}
+				continue
+			}
+			succs := x.Succs
+			if iff, isIf := last.(*ssa.If); isIf {
+				if bo, isB := iff.Cond.(*ssa.BinOp); isB && (bo.X == tv || bo.Y == tv) {
+					other := bo.Y
+					if bo.Y == tv {
+						other = bo.X
+					}
+					if _, isC := other.(*ssa.Const); isC {
+						switch bo.Op {
+						case token.EQL:
+							ncmp++
+							succs = x.Succs[1:2]
+						case token.NEQ:
+							ncmp++
+							succs = x.Succs[:1]
 						}
 					}
 				}
 			}
+			for _, y := range succs {
+				if y == hdr || (x != tb && y == tb) {
+					okType = false // goes on to the next node (or round again) with an unknown type
+					continue
+				}
+				if !seenB[y] {
+					seenB[y] = true
+					stack = append(stack, y)
+				}
+			}
+		}
+		if ncmp == 0 {
+			okType = false
 		}
 	}
-	c.R.Check(okType, "C13-R4", "Compile: unknown branching type rejected", c.P.Pos(compile.Pos()), "the default case returns an error", "an unknown branching type is accepted at compile time")
+	c.R.Check(okType, "C13-R4", "Compile: unknown branching type rejected", c.P.Pos(compile.Pos()), "a type equal to none of the compared constants can only reach an error return", "an unknown branching type is accepted at compile time")
 	// unknown interpreter
 	okInt := false
 	ssau.Instrs(asCompile, func(in ssa.Instruction) {
